@@ -105,6 +105,9 @@ func (i *Interceptors) NewSegment(val string) (*Segment, error) {
 	if !seg.ignoreName {
 		name = "P<" + seg.Name + ">"
 	}
+	if _, err := regexp.Compile(seg.rule); err != nil { // 规则本身必须是完整的表达式，否则诸如 a)|(b 会逃出分组。
+		return nil, err
+	}
 	expr, err := regexp.Compile("(?" + name + seg.rule + ")" + regexp.QuoteMeta(seg.Suffix))
 	if err != nil {
 		return nil, err
